@@ -28,6 +28,7 @@
 import Optyx.Denote
 import Optyx.Py.Grad
 import Optyx.Py.Sanitize
+import Optyx.Generated.JacRow
 
 namespace Optyx.Py
 open Optyx Optyx.Generated NumAlg
@@ -133,20 +134,7 @@ open Jac
    source, *not* the one of `gradient_vector_unary_sum`) is `Optyx.Generated.unSumJacRow`,
    regenerated from the source before every build. -/
 
-/-- `Constant(c * e.value) if isinstance(e, Constant) else BinaryOp(Constant(c), e, "*")`.
-    A float product with `np.log(2.0)` / `np.log(10.0)` is not a rational: kept as a product
-    (semantically the same number; outside the exact structural correspondence). -/
-def scaleLeft (c : Cst) (e : Expr) : Expr :=
-  match c, e with
-  | .rat a, .const (.rat b) => .const (.rat (a * b))
-  | _, _ => .bin .mul (.const c) e
-
-/-- `Constant(c * e.value) if isinstance(e, Constant) else BinaryOp(e, Constant(c), "*")` -/
-def scaleRight (c : Cst) (e : Expr) : Expr :=
-  match c, e with
-  | .rat a, .const (.rat b) => .const (.rat (a * b))
-  | _, .const _ => .bin .mul (.const c) e
-  | _, _ => .bin .mul e (.const c)
+/- `scaleLeft` / `scaleRight` (the two list comprehensions of `BinaryOp.jacobian_row`) live in `Py/JacScale.lean`. -/
 
 /-- `VectorPowerSum.jacobian_row`, one entry (`var` is the element of `variables`, not of the vector) -/
 def powRowEntry (k : Rat) (var : Var) : Expr :=
@@ -173,22 +161,9 @@ def dotRow (V : List Var) (l r : VVar) : List Expr :=
 /-- `e.jacobian_row(variables)`; `none` = the method returns `None` -/
 def jacRow (V : List Var) : Expr → Option (List Expr)
   | .bin op l r =>
-    match op, l, r with
-    -- f ± c
-    | .add, l, .const _ => jacRow V l
-    | .sub, l, .const _ => jacRow V l
-    -- c + f
-    | .add, .const _, r => jacRow V r
-    -- c * f, then f * c  (the second test is only reached when the first row is None)
-    | .mul, .const c, r =>
-      match jacRow V r with
-      | some row => some (row.map (scaleLeft c))
-      | none => none   -- if `r` is a Constant too, the fourth test asks `Constant.jacobian_row` → None
-    | .mul, l, .const c =>
-      match jacRow V l with
-      | some row => some (row.map (scaleRight c))
-      | none => none
-    | _, _, _ => none
+    -- `BinaryOp.jacobian_row`: the statement-by-statement translation of the source, regenerated on
+    -- every run (`Generated/JacRow.lean`), applied to the rows of the two operands
+    binJacRow op l r (jacRow V l) (jacRow V r)
   | .vecSum v => some (V.map fun x => if hasName x.name v.vars then Expr.c 1 else Expr.c 0)
   | .dot (.vars l) (.vars r) => some (dotRow V l r)
   | .linComb cs (.vars v) =>
